@@ -165,4 +165,27 @@ theorem c07_element_reencode (u t : UInt8) (raw : Bytes) (v : Vertex)
     encodeElement u t (stdDecode u t raw v) = .ok raw :=
   encodeElement_canonical u t raw v hw hl hc
 
+/-! ## further non-vacuity instances -/
+
+/-- hypotheses of `c07_element_reencode`: a Position Half4 element (w lane 1.0) and a BiTangent
+element (handedness 255) -/
+example : writable VU.position VT.half4 = true ∧
+    [0x00, 0x38, 0xFF, 0x7B, 0x00, 0x80, 0x00, 0x3C].length = typeSize VT.half4 ∧
+    canonicalRaw VU.position VT.half4 [0x00, 0x38, 0xFF, 0x7B, 0x00, 0x80, 0x00, 0x3C] = true ∧
+    writable VU.biTangent VT.byteFloat4 = true ∧ canonicalRaw VU.biTangent VT.byteFloat4 [1, 128, 254, 255] = true := by
+  decide +kernel
+
+/-- hypotheses of `c07_sections_chain` / `c07_index_section_padded`: the consistent model `exOut` -/
+example : HeaderOK exOut := by decide +kernel
+
+/-- hypotheses of `c07_write_parse_headers_partial` on the parsed `canonicalSample` -/
+def parsedSample : Option MDL :=
+  (view canonicalSample).map fun v =>
+    { fileHeader := fileHeader canonicalSample, modelData := modelData canonicalSample,
+      lods := v.lods, affectedBoneNames := v.affectedBoneNames, materialNames := v.materialNames }
+
+example : (parsedSample.map fun m => isV5 m.fileHeader.version &&
+    modelDataOk m.fileHeader m.modelData && writesAfterHeader m) = some true := by
+  decide +kernel
+
 end Physis.C07
